@@ -8,10 +8,11 @@ phases (VERIF_PHASES): mc    exhaustive model checking of the repaired implement
 from props import _proxymsg as pm
 
 PKG = "pkg/object/httpserver"
-INVS = "INVARIANTS Faithful Reaches PathUnchanged BodyUnchanged HopStripped HostRule StatusKept ContentKept WellFramed Composed\n"
+INVS = ("INVARIANTS Faithful Reaches PathUnchanged BodyUnchanged HopStripped HostRule StatusKept ContentKept WellFramed NoTruncatedSuccess "
+        "HitLikeMiss Composed\n")
 
 REQ_CLAUSES = ("reach", "method", "path", "query", "reqbody", "reqe2e", "reqhop", "host")
-PRIORITY = ("reach", "status", "path", "query", "method", "host", "reqbody", "reqhop", "reqe2e", "framed", "content", "respe2e")
+PRIORITY = ("reach", "status", "path", "query", "method", "host", "reqbody", "reqhop", "reqe2e", "truncated", "framed", "content", "respe2e")
 
 
 def mc_cfg(fixed, quick):
@@ -25,21 +26,28 @@ def gen_cfg(quick):
     return "SPECIFICATION Spec\nCONSTANTS\n  ReqSpace <- %s\n  RespSpace <- %s\n" % sp
 
 
-ALL = ["F5", "F6", "F7", "HEAD", "METRIC"]
+ALL = ["F5", "F6", "F7", "HEAD", "METRIC", "ABORT", "CLONE"]
 
 
 def run(ctx):
     ctx.cov["rule"] = ("scenario = one element of the request-direction or response-direction toggle product of specs/ProxyMsgDefs.tla "
                        "(enumerated by TLC); evaluation = one real exchange (raw client -> mux.ServeHTTP -> Pipeline[RequestAdaptor? Proxy "
                        "ResponseAdaptor?] -> raw TCP backend and back) whose recording TLC evaluated against the contract; "
-                       "trace = the same recorded exchange; non-trivial = distinct (request scenario class, response scenario) pairs that "
-                       "exercise a non-default toggle")
+                       "a response scenario with a memory cache is a sequence of 3 identical requests to one proxy instance, each a recorded exchange; "
+                       "trace = the same recorded exchange; non-trivial = distinct (request scenario class, response scenario, cache hit) "
+                       "triples that exercise a non-default toggle")
     ctx.assumptions += [
         "path 'unchanged' = identical after percent-decoding (raw query: byte-identical); see ProxyMsgDefs.tla",
         "hop-by-hop 'removed' = no header of that name carrying one of the client's values reaches the backend; the client's own "
         "Transfer-Encoding/Trailer are consumed by net/http before easegress sees them and are not observable",
         "a ResponseAdaptor/RequestAdaptor `body:` replaces the content: the configured body is then what must arrive",
-        "Content-Encoding values other than gzip, HTTP/2, HTTP/3, mirror pool, memory cache, mTLS are outside the model",
+        "Content-Encoding values other than gzip, HTTP/2, HTTP/3, mirror pool, mTLS are outside the model",
+        "memory cache: a repeated identical request may be answered from the cache or by a backend (the text does not say when a cache "
+        "hits); whichever happens, the response must be the backend's (status, end-to-end headers, content) and well-framed",
+        "a backend response that breaks off (declared Content-Length, connection closed early) has no complete content: the client must not "
+        "receive a complete, decodable success (status < 400) - an error status or a visibly broken message are both admitted",
+        "a server url without a port is exercised on port 80 of loopback addresses 127.a.b.c (IPv6 literal: the IPv4-mapped form "
+        "[::ffff:127.a.b.c]); host names are exercised with a port only",
         "byte equality / gzip / sha256 are computed by the harness abstraction (trusted); TLC sees identities and lengths",
     ]
     if ctx.phase("mc"):
@@ -63,7 +71,9 @@ def _leads(ctx):
 
 
 def _pair(ctx, vecs):
-    """Pairs request-direction and response-direction scenarios into cases (seeded)."""
+    """Pairs request-direction and response-direction scenarios into cases (seeded).  The response
+    scenarios are drawn by stratum (plain / memory cache / backend breaks off) so that every run
+    contains enough sequences and enough broken backend responses."""
     rnd = pm.rng(ctx, 303)
     reqs = [v for v in vecs if v["dir"] == "req"]
     resps = [v for v in vecs if v["dir"] == "resp"]
@@ -73,22 +83,33 @@ def _pair(ctx, vecs):
     resps.sort(key=lambda v: pm.jdump(v["s"]))
     rnd.shuffle(reqs)
     rnd.shuffle(resps)
+    strata = {"plain": [v for v in resps if not v["s"]["cache"] and not v["s"]["short"]],
+              "cache": [v for v in resps if v["s"]["cache"]],
+              "short": [v for v in resps if v["s"]["short"]]}
+    if not all(strata.values()):
+        ctx.inconclusive("vector generation produced no scenario for one of the strata %s" % sorted(strata))
     n = 1200 if ctx.quick else 12000
     bodyless = [v for v in reqs if v["s"]["rbody"] == "none"]
     cases = []
+    taken = {k: 0 for k in strata}
     for i in range(n):
-        pv = resps[i % len(resps)]
+        st = ("plain", "cache", "plain", "short", "plain", "cache", "plain", "cache", "plain", "short")[i % 10]
+        pv = strata[st][taken[st] % len(strata[st])]
+        taken[st] += 1
         rv = reqs[i % len(reqs)]
         if pv["s"]["head"] and rv["s"]["rbody"] != "none":
             rv = bodyless[i % len(bodyless)]
-        exp = dict(rv["exp"])      # times, pathrel, blabel, hostis from the request scenario
-        exp.update({k: pv["exp"][k] for k in ("status", "clabel")})
-        exp["viol"] = sorted(set(rv["exp"]["viol"]) | set(pv["exp"]["viol"]))
-        cases.append({"id": i + 1, "req": rv, "resp": pv, "exp": exp})
+        exps = []
+        for pexp in pv["exps"]:       # one prediction per request of the sequence
+            exp = dict(rv["exp"])     # times, pathrel, blabel, hostis from the request scenario
+            exp.update({k: pexp[k] for k in ("status", "clabel")})
+            exp["viol"] = sorted(set(rv["exp"]["viol"]) | set(pexp["viol"]))
+            exps.append(exp)
+        cases.append({"id": i + 1, "req": rv, "resp": pv, "exps": exps})
     return cases
 
 
-def _sig(case, clause):
+def _sig(case, clause, k=1):
     rs, ps = case["req"]["s"], case["resp"]["s"]
     if clause in REQ_CLAUSES:
         sig = {"dir": "req", "clause": clause}
@@ -102,8 +123,9 @@ def _sig(case, clause):
             sig.update(addr=rs["addr"], keepHost=rs["keepHost"])
         return sig
     sig = {"dir": "resp", "clause": clause}
-    sig.update({k: ps[k] for k in ("comp", "rsa", "rsahdr", "respMode", "ae", "head", "bframing", "benc")})
+    sig.update({k: ps[k] for k in ("comp", "rsa", "rsahdr", "respMode", "ae", "head", "bframing", "benc", "cache", "short")})
     sig["empty"] = ps["bsize"] == 0
+    sig["finalLabel"] = case["exps"][min(k, len(case["exps"])) - 1]["clabel"]    # Content-Encoding the model predicts at the client
     sig.update(case["resp"]["feat"])
     return sig
 
@@ -113,32 +135,47 @@ def _mbt(ctx):
     cases = _pair(ctx, vecs)
     ctx.log("%d scenario vectors, %d cases" % (len(vecs), len(cases)))
     events, summ = pm.run_harness(ctx, PKG, "TestVerifC03Run", cases, "c03", timeout=1500)
-    ctx.log("%d exchanges recorded (ipv6 backend: %s)" % (len(events), summ.get("ipv6")))
-    verdicts = pm.evaluate(ctx, "ProxyMsg_Trace", events, "c03_trace")
+    ctx.log("%d exchanges recorded (ipv6 backend: %s, servers without a port: %s)" % (len(events), summ.get("ipv6"), summ.get("noport")))
+    if not summ.get("noport"):
+        ctx.notes.append("port 80 could not be bound on a loopback address: server urls without a port were run with a port")
     by_id = {c["id"]: c for c in cases}
     ev_by_id = {e["id"]: e for e in events}
+    # vacuity: the new dimensions must really have been exercised
+    hits = sum(1 for e in events if e["cfg"]["mayHit"] and not e["bs"])
+    broken = sum(1 for e in events if e["br"]["short"])
+    if hits < 10 or broken < 10:
+        ctx.inconclusive("only %d memory-cache hits and %d broken backend responses were exercised" % (hits, broken))
+    ctx.log("%d exchanges answered from the memory cache, %d backend responses that break off" % (hits, broken))
+    verdicts = pm.evaluate(ctx, "ProxyMsg_Trace", events, "c03_trace")
     ctx.evals(len(events))
     ctx.traces(len(events))
     for e in events:
-        c = by_id[e["id"]]
-        ctx.nontrivial({"r": {k: v for k, v in c["req"]["s"].items() if k not in ("path", "query")}, "pc": c["req"]["pathcls"], "p": c["resp"]["s"]})
+        c = by_id[e["case"]]
+        ctx.nontrivial({"r": {k: v for k, v in c["req"]["s"].items() if k not in ("path", "query")}, "pc": c["req"]["pathcls"], "p": c["resp"]["s"],
+                        "hit": e["cfg"]["mayHit"] and not e["bs"]})
     for e in events[:3]:
         ctx.sample({"kind": "exchange", "client_target": e["c"].get("targetText"),
                     "backend_targets": [b.get("targetText") for b in e["bs"]],
                     "cfg": e["cfg"], "client_status": e["cr"]["status"], "framing": e["cr"]["framing"], "declared": e["cr"]["declared"],
-                    "got": e["cr"]["got"], "scenario": {"req": by_id[e["id"]]["req"]["s"], "resp": by_id[e["id"]]["resp"]["s"]}})
+                    "got": e["cr"]["got"], "scenario": {"req": by_id[e["case"]]["req"]["s"], "resp": by_id[e["case"]]["resp"]["s"]}})
     drift = 0
-    for cid, (viol, dr) in sorted(verdicts.items()):
-        c, e = by_id[cid], ev_by_id[cid]
+    for eid, (viol, dr) in sorted(verdicts.items()):
+        e = ev_by_id[eid]
+        c = by_id[e["case"]]
         if not viol:
             drift += 1
             if drift <= 6:
-                ctx.notes.append("model drift (no contract clause violated): case %d fields %s scenario %s" % (cid, dr, pm.jdump(
+                ctx.notes.append("model drift (no contract clause violated): case %d request %d fields %s scenario %s" % (c["id"], e["k"], dr, pm.jdump(
                     {"req": c["req"]["s"], "resp": c["resp"]["s"]})))
             continue
         for clause in _primary(viol):
             what = _describe(clause, c, e)
-            ctx.violation(_sig(c, clause), what, {"case": c, "exchange": _trim(e), "violated": viol})
+            sig = _sig(c, clause, e["k"])
+            if clause == "truncated":      # what the client was given: nothing at all, or a body with / without a gzip label
+                sig["clientBody"] = "empty" if e["cr"]["got"] == 0 else (e["cr"]["body"]["label"] or "plain")
+            if c["resp"]["s"]["cache"]:
+                sig["repeat"] = e["k"] > 1
+            ctx.violation(sig, what, {"case": c, "exchange": _trim(e), "violated": viol})
     if drift:
         ctx.notes.append("%d exchanges satisfied the contract but differed from the implementation-shaped layer's prediction" % drift)
         ctx.log("model drift on %d exchanges (not a verdict)" % drift)
@@ -170,11 +207,20 @@ def _describe(clause, c, e):
     if clause == "status":
         return "client received status %s for the backend's %s (%s, Content-Length framing: %s, compression minLength %s, ResponseAdaptor %s)" % (
             cr["status"], e["br"]["status"], e["c"]["method"], c["resp"]["s"]["bframing"], e["cfg"].get("compressionMin"), e["cfg"]["rsa"])
+    seq = ""
+    if e["cfg"].get("memoryCache"):
+        seq = "request %d of a sequence of identical requests to a pool with a memory cache (%s): " % (
+            e["k"], "answered without a backend" if not bs else "answered by the backend")
+    if clause == "truncated":
+        return ("the backend's response broke off (Content-Length %s declared, %s body bytes sent, then the connection was closed) and the client "
+                "received it as a complete success: status %s, framing %s, %s bytes, Content-Encoding %r decodable=%s (compression minLength %s, "
+                "ResponseAdaptor %s, %s)" % (e["br"]["body"]["len"], e["br"].get("sent"), cr["status"], cr["framing"], cr["got"], cr["body"]["label"],
+                                             cr["body"]["decok"], e["cfg"].get("compressionMin"), e["cfg"]["rsa"], c["resp"]["s"]["respMode"]))
     if clause == "framed":
-        return "response not well-framed: framing %s declared %s bytes, %s received, complete=%s, after=%s" % (
+        return seq + "response not well-framed: framing %s declared %s bytes, %s received, complete=%s, after=%s" % (
             cr["framing"], cr["declared"], cr["got"], cr["complete"], cr["after"])
     if clause == "content":
-        return "response content differs from the backend's (label %r, decodable=%s, %s bytes; backend %s bytes label %r)" % (
+        return seq + "response content differs from the backend's (label %r, decodable=%s, %s bytes; backend %s bytes label %r)" % (
             cr["body"]["label"], cr["body"]["decok"], cr["got"], e["br"]["body"]["len"], e["br"]["body"]["label"])
     names = lambda hs: sorted(h["n"] for h in hs)
     if clause == "reqhop":
